@@ -185,6 +185,14 @@ type scenario struct {
 	// chosen as 1 + j*limit: at that callback every RequestNext has been answered, so the
 	// client has agency and Done MUST go out (alone, at once) whatever the timing
 	Gate int `json:"gate,omitempty"`
+	// Prelude: GetAvailableBlockRange (FindIntersect, RequestNext -> RollBackward, RequestNext ->
+	// RollForward = the first block) is called on the same client BEFORE Sync(); the history that
+	// is judged and replayed starts at Sync() (the model starts where Sync() returns, with an
+	// empty readyForNextBlock channel - a stale ready signal left by the prelude breaks that)
+	Prelude bool `json:"prelude,omitempty"`
+	// Lazy server: it answers ONE request, and only once no request has arrived and no reply was
+	// sent for 50 ms, so unanswered requests pile up on the wire as far as the client lets them
+	Lazy bool `json:"lazy,omitempty"`
 }
 
 // tapConn records the chain-sync segments the client's muxer writes (muxer.Send writes one
@@ -257,8 +265,10 @@ func runScenario(sc scenario, seed uint64) (out outcome) {
 	var mu sync.Mutex
 	pending, next, reqs, reps := 0, 0, 0, 0
 	stopped := false
-	flush := func() { // mu held
-		for pending > 0 && next < len(sc.Script) && !stopped {
+	inPrelude, preReqs := false, 0
+	var lastReqAt, lastRepAt time.Time
+	flushN := func(max int) { // mu held
+		for n := 0; n < max && pending > 0 && next < len(sc.Script) && !stopped; n++ {
 			u := sc.Script[next]
 			var payload []byte
 			if u.Await {
@@ -274,12 +284,20 @@ func runScenario(sc scenario, seed uint64) (out outcome) {
 				rbSentAt.Store(next, time.Now())
 			}
 			reps++
+			lastRepAt = time.Now()
 			payload = append(payload, u.enc()...)
 			if p.Send(chainsync.ProtocolIdNtC, payload) != nil {
 				return
 			}
 			next++
 			pending--
+		}
+	}
+	flush := func() { // mu held
+		if !sc.Lazy {
+			flushN(1 << 30)
+		} else if time.Since(lastReqAt) > 50*time.Millisecond && time.Since(lastRepAt) > 50*time.Millisecond {
+			flushN(1)
 		}
 	}
 	p.OnMsg = func(proto uint16, mt uint, raw []byte) {
@@ -292,9 +310,23 @@ func runScenario(sc scenario, seed uint64) (out outcome) {
 		case 4: // FindIntersect -> IntersectFound(origin-ish point, tip)
 			p.Send(proto, cat([]byte{0x83, 0x05}, encPoint(fixtures[0].Slot, fixtures[0].Hash), encTip(tips[0])))
 		case 0: // RequestNext
+			if inPrelude {
+				// GetAvailableBlockRange: roll back to the intersect, then the first block
+				preReqs++
+				if preReqs == 1 {
+					p.Send(proto, cat([]byte{0x83, 0x03}, encPoint(fixtures[0].Slot, fixtures[0].Hash), encTip(tips[0])))
+				} else {
+					p.Send(proto, update{Kind: "F", Fix: 1, Tip: 0}.enc())
+				}
+				return
+			}
 			reqs++
 			pending++
+			lastReqAt = time.Now()
 			lg.Add("req")
+			if sc.Lazy {
+				return
+			}
 			if next < len(sc.Script) && sc.Script[next].Hold && pending < 2 {
 				return
 			}
@@ -472,6 +504,21 @@ func runScenario(sc scenario, seed uint64) (out outcome) {
 		}
 	}()
 	cl := oConn.ChainSync().Client
+	if sc.Prelude {
+		mu.Lock()
+		inPrelude = true
+		mu.Unlock()
+		_, _, err := cl.GetAvailableBlockRange([]pcommon.Point{pcommon.NewPoint(fixtures[0].Slot, vh.UnHex(fixtures[0].Hash))})
+		mu.Lock()
+		inPrelude = false
+		npre := preReqs
+		mu.Unlock()
+		if err != nil || npre != 2 {
+			out.SyncErr = fmt.Sprintf("prelude GetAvailableBlockRange: err=%v, %d RequestNext (want 2)", err, npre)
+			return
+		}
+		lg.Add("presync")
+	}
 	if err := cl.Sync([]pcommon.Point{pcommon.NewPoint(fixtures[0].Slot, vh.UnHex(fixtures[0].Hash))}); err != nil {
 		out.SyncErr = err.Error()
 		return
@@ -508,7 +555,7 @@ func runScenario(sc scenario, seed uint64) (out outcome) {
 	if (skipStop && (sc.Limit == 0 || sc.Limit > 70)) || hangs >= 3 {
 		// the hang is already reported (3 replays); do not pay 16 s per further scenario
 		out.StopReturned = true
-		out.Events = lg.Snapshot()
+		out.Events = sinceSync(lg.Snapshot())
 		return
 	}
 	go func() { defer close(stopRet); cl.Stop() }()
@@ -550,7 +597,7 @@ func runScenario(sc scenario, seed uint64) (out outcome) {
 	time.Sleep(2 * time.Millisecond)
 	lg.Add("stopped")
 	time.Sleep(3 * time.Millisecond)
-	out.Events = lg.Snapshot()
+	out.Events = sinceSync(lg.Snapshot())
 	if out.StopReturned {
 		// syncLoop, handlers and Stop itself must be gone (generous bound: only a leak pays it)
 		t0 := time.Now()
@@ -581,28 +628,18 @@ func runScenario(sc scenario, seed uint64) (out outcome) {
 	return
 }
 
+// sinceSync drops the prelude (everything up to the "presync" marker)
+func sinceSync(evs []string) []string {
+	for i, e := range evs {
+		if e == "presync" {
+			return evs[i+1:]
+		}
+	}
+	return evs
+}
+
 var skipStop bool
 
-type missing struct {
-	gate int
-	rep  map[string]any
-}
-
-var missingDone []missing
-
-// A Done that never reaches the peer although Stop() was called with agency: a single
-// occurrence in a run is the (listed) drain race - WaitSendQueueDrained saw "drained" between
-// sendLoop taking Done and handing the segment over; two or more mean Done is not being sent.
-func judgeMissingDone(c *vh.Ctx) {
-	for _, m := range missingDone {
-		key := "stop-drain-race"
-		if len(missingDone) >= 2 {
-			key = "done-missing-with-agency"
-		}
-		c.Res.Violate("monitor", key,
-			fmt.Sprintf("Stop() was called while callback %d was blocked (every request answered: the client has agency) and Done had not reached the peer after 5 s (%d such scenario(s) this run)", m.gate, len(missingDone)), m.rep)
-	}
-}
 var hangs int
 
 func monitor(c *vh.Ctx, sc scenario, out outcome) {
@@ -697,20 +734,15 @@ func monitor(c *vh.Ctx, sc scenario, out outcome) {
 		case "rep":
 			wreps++
 		case "seg":
-			doneInThisSeg := false
 			for _, t := range f[1:] {
-				if doneWritten && doneInThisSeg {
-					// a pipelined follower behind Done in Done's own batch: the other face of the drain race
-					c.Res.Violate("monitor", "stop-drain-race", fmt.Sprintf("message type %s was written behind Done in the same segment", t), rep)
-				} else if doneWritten {
-					c.Res.Violate("monitor", "write-after-done", fmt.Sprintf("message type %s was written on chain-sync in a segment after Done's", t), rep)
+				if doneWritten {
+					c.Res.Violate("monitor", "write-after-done", fmt.Sprintf("message type %s was written on chain-sync after Done", t), rep)
 				}
 				switch t {
 				case "0":
 					wreq++
 				case "7":
 					doneWritten = true
-					doneInThisSeg = true
 					if wreq != wreps {
 						// the server has answered wreps of the wreq requests written so far: it holds agency
 						c.Res.Violate("monitor", "done-sent-without-agency",
@@ -721,8 +753,8 @@ func monitor(c *vh.Ctx, sc scenario, out outcome) {
 		}
 	}
 	if out.Gated && out.StopReturned && !out.DoneAtGate {
-		// judged at the end of the run (judgeMissingDone): once = the drain race, more = Done is not sent
-		missingDone = append(missingDone, missing{sc.Gate, rep})
+		c.Res.Violate("monitor", "done-missing-with-agency",
+			fmt.Sprintf("Stop() was called while callback %d was blocked (every request answered: the client has agency) and Done had not reached the peer after 5 s", sc.Gate), rep)
 	}
 	if len(out.GoLeft) > 0 {
 		c.Res.Violate("monitor", "goroutine-left-after-stop", fmt.Sprintf("chain-sync client goroutines still running 5 s after Stop() returned: %v", out.GoLeft), rep)
@@ -802,6 +834,19 @@ func genGateScenario(r *vh.Rng, limit int) scenario {
 	return sc
 }
 
+// Sync() after GetAvailableBlockRange on the same client, against a lazy server: the pipeline
+// limit must hold from the first request of the sync on
+func genPreludeScenario(r *vh.Rng, limit int) scenario {
+	sc := genScenario(r, limit, 2*limit+2+r.Intn(3))
+	sc.StopAt = -1
+	sc.SlowCb = 0
+	sc.Prelude, sc.Lazy = true, true
+	for i := range sc.Script {
+		sc.Script[i].Hold = false
+	}
+	return sc
+}
+
 // Stop() at a random point of a pipeline conversation (blocks in flight in the block pipeline)
 func genPipeStopScenario(r *vh.Rng, limit int) scenario {
 	sc := genPipeScenario(r, limit)
@@ -841,6 +886,8 @@ func runOne(c *vh.Ctx, cf *vh.CaseFile, sc scenario, seed uint64) {
 		class = "pipeline," + class
 	}
 	switch {
+	case sc.Prelude:
+		class = "sync-after-block-range," + class
 	case sc.Gate > 0:
 		class = "stop-with-agency," + class
 	case sc.StopAt == 0:
@@ -870,7 +917,7 @@ func run(c *vh.Ctx) error {
 			return fmt.Errorf("fixture %s does not decode to its mainnet slot/hash: %v", f.Name, err)
 		}
 	}
-	c.Res.Rule = "a scenario = pipeline limit (0..10, 25, 100), a server script of 1..60 updates (roll forward with real blocks of 7 eras, roll backward, optional AwaitReply, held/bursty/coalesced replies), slow callbacks, Stop() at a random callback count / right after Sync() / after the script / while a chosen callback is blocked with every request answered (client has agency); plus a block-pipeline class (real pipeline.BlockPipeline, ApplyFunc gated until the following RollBackward has been sent, drain timeout at its zero default, scripts RF..RF RB RF.. RB RF..); distinct by the scenario JSON; non-trivial = at least 3 updates"
+	c.Res.Rule = "a scenario = pipeline limit (0..10, 25, 100), a server script of 1..60 updates (roll forward with real blocks of 7 eras, roll backward, optional AwaitReply, held/bursty/coalesced replies), slow callbacks, Sync() directly or after a GetAvailableBlockRange on the same client (lazy server: one reply per 50 ms of silence), Stop() at a random callback count / right after Sync() / after the script / while a chosen callback is blocked with every request answered (client has agency); plus a block-pipeline class (real pipeline.BlockPipeline, ApplyFunc gated until the following RollBackward has been sent, drain timeout at its zero default, scripts RF..RF RB RF.. RB RF..); distinct by the scenario JSON; non-trivial = at least 3 updates"
 	c.Res.Modelled = []string{
 		"the engine's pipelined send path is abstracted: SendMessage = written (an upper bound); engine itself C11-C13",
 		"Stop(): modelled statement by statement in coq/C21/Stop.v on a small abstraction of the engine's send side (queue 80, token, batches of 20, queued transitions); its two bounded waits are abstracted (TryLock gives up only against a holder blocked on a full queue; the 250 ms drain wait may expire at any time and C21_stop's Done clause is for runs where it did not); tie = the segments on the connection (check_wire) and the monitor",
@@ -893,7 +940,6 @@ func run(c *vh.Ctx) error {
 			return err
 		}
 		runOne(c, cf, rp.Replay.Scenario, 1)
-		judgeMissingDone(c)
 		cf.Flush()
 		return nil
 	}
@@ -916,6 +962,11 @@ func run(c *vh.Ctx) error {
 	for k := 0; k < c.Pick(2, 12); k++ {
 		runOne(c, cf, genPipeStopScenario(c.Rng, []int{1, 2, 3, 5, 10}[c.Rng.Intn(5)]), c.Rng.U64())
 	}
+	// Sync() after GetAvailableBlockRange, lazy server
+	runOne(c, cf, genPreludeScenario(c.Rng, 3), c.Rng.U64())
+	for k := 0; k < c.Pick(2, 10); k++ {
+		runOne(c, cf, genPreludeScenario(c.Rng, []int{1, 2, 3, 5}[c.Rng.Intn(4)]), c.Rng.U64())
+	}
 	limits := []int{0, 1, 2, 3, 4, 5, 6, 7, 8, 9, 10, 25, 100}
 	reps := c.Pick(3, 25)
 	for _, lim := range limits {
@@ -930,7 +981,6 @@ func run(c *vh.Ctx) error {
 			runOne(c, cf, genScenario(c.Rng, lim, n), c.Rng.U64())
 		}
 	}
-	judgeMissingDone(c)
 	cf.Flush()
 	return nil
 }
